@@ -433,7 +433,7 @@ def c04(tier):
     n = 0
     for structured in (False, True):
         for use_cache in (None, True, False):
-            for lock in (None, 7, 2, 3, "corrupt", "empty"):
+            for lock in (None, 7, 2, 3, "corrupt", "empty", "dir", "loop"):
                 for tree in ({"f1.rs": [S(11), S(12, ref=3)], "f2.rs": [S(21)]},
                              {"f1.rs": [S(11, ref=1)], "f2.rs": [S(21, ref=2), S(22, kind="unusable")]},
                              {"f1.rs": [S(11)], "f2.rs": []}):
@@ -501,6 +501,12 @@ def c05(tier):
             sc = rl.Scenario("ext-" + "-".join(exts), {"f1.rs": [S(11), S(12, ref=3)], "f2.rs": [S(21), S(22)]},
                              structured=structured, extensions=exts)
             rl.planned_runs(binary, sc, [[("check", ""), ("edit", ""), ("check", "")]], batch, v, sigbase={"extensions": ",".join(exts)})
+    # a lock that exists but cannot be read (a directory of that name, a symbolic link to itself): checking does not need it
+    for structured in (False, True):
+        for lockkind in ("dir", "loop"):
+            for tree in ({"f1.rs": [S(11, ref=1)], "f2.rs": [S(21, ref=2)]}, {"f1.rs": [S(11), S(12, ref=3)], "f2.rs": [S(21)]}):
+                sc = rl.Scenario("lock-" + lockkind, tree, lock=lockkind, structured=structured)
+                rl.planned_runs(binary, sc, [[("check", "")]], batch, v, sigbase={"lock_kind": lockkind})
     env_step(v, binary, batch, tier, follow="check")
     batch.judge(v, {"C05"})
     # (d) statement level: what precedes the statement on its line (multi-byte text, tabs), CRLF and multi-line layouts,
